@@ -180,6 +180,9 @@ type connScript struct {
 	// senders > 1: the client packets are handed to Send by that many goroutines at once (packet i by
 	// goroutine i mod senders); the server must receive every packet intact, in any order.
 	senders int
+	// arena: the client payloads are consecutive pieces of one buffer (each slice has the following payloads in
+	// its spare capacity); sending a packet must leave the caller's buffer as it was.
+	arena bool
 	// writeWait > 0 (enumerated limit cases only): how long the server may be stuck writing a stream that the
 	// client is entitled to stop reading, before the connection is judged on what arrived so far.
 	writeWait time.Duration
@@ -233,6 +236,9 @@ func (s *connScript) String() string {
 	}
 	if s.senders > 1 {
 		fmt.Fprintf(&sb, "; %d goroutines send concurrently", s.senders)
+	}
+	if s.arena {
+		sb.WriteString("; client payloads are consecutive pieces of one buffer")
 	}
 	if s.connectMs > 0 {
 		fmt.Fprintf(&sb, "; connect context expires after %d ms, client traffic starts after that", s.connectMs)
@@ -328,6 +334,10 @@ func drawConnScript(c *core.Ctx, big, burst bool, pool *packetPool) *connScript 
 	if len(s.client) >= 2 && rare(c, "senders", 4) {
 		s.senders = c.Range("senders.n", 2, 4)
 		c.Class("concurrent senders on one connection")
+	}
+	if len(s.client) >= 2 && rare(c, "arena", 4) {
+		s.arena = true
+		c.Class("client payloads carved out of one buffer")
 	}
 	if s.plan.Fault.Kind == adnlsrv.FaultNone && len(s.client) > 0 && rare(c, "connect.deadline", 5) {
 		s.connectMs = c.Range("connect.ms", 250, 700)
@@ -535,6 +545,16 @@ func runConn(s *connScript) (err error) {
 	if nSenders < 1 {
 		nSenders = 1
 	}
+	var arena, arenaCopy []byte
+	var arenaAt []int
+	if s.arena {
+		for _, p := range s.client {
+			arenaAt = append(arenaAt, len(arena))
+			arena = append(arena, p...)
+		}
+		arena = append(arena, make([]byte, 64)...) // room behind the last payload as well
+		arenaCopy = append([]byte{}, arena...)
+	}
 	var sendWG sync.WaitGroup
 	for g := 0; g < nSenders; g++ {
 		sendWG.Add(1)
@@ -543,8 +563,10 @@ func runConn(s *connScript) (err error) {
 			for i := g; i < len(s.client); i += nSenders {
 				var pk liteclient.Packet
 				var e error
-				if i < len(s.clientPk) && s.clientPk[i] != nil {
+				if i < len(s.clientPk) && s.clientPk[i] != nil && (s.clientPk[i].uses > 1 || !s.arena) {
 					pk, e = s.clientPk[i].get() // one Packet value, possibly handed to Send before
+				} else if s.arena {
+					pk, e = liteclient.NewPacket(arena[arenaAt[i] : arenaAt[i]+len(s.client[i])])
 				} else {
 					pk, e = liteclient.NewPacket(append([]byte{}, s.client[i]...))
 				}
@@ -578,6 +600,13 @@ func runConn(s *connScript) (err error) {
 	case <-senderDone:
 	case <-time.After(waitLimit):
 		return report("Connection.Send did not return within %v", waitLimit)
+	}
+	if s.arena && !bytes.Equal(arena, arenaCopy) {
+		at := 0
+		for at < len(arena) && arena[at] == arenaCopy[at] {
+			at++
+		}
+		return report("sending the client packets changed the caller's buffer the payloads are pieces of (first changed byte at offset %d of %d)", at, len(arena))
 	}
 	if sendErr != nil {
 		return report("Connection.Send of client packet %d (%s) failed on a healthy connection: %v", sendAt, describe(s.client[sendAt]), sendErr)
